@@ -9,6 +9,10 @@ reg(Prop('C01', [
            exhaustive='reader failure at operation k for every k in 0..24 x every variant x {dwarf+convert, cfi+convert, misc}'),
     Stream('c01.bytes', 10000, 2000000, 'oracle', timeout=900,
            exhaustive='every byte string of length <= 1 as each of 22 sections; length-2 grid for macinfo/macro/eh_frame_hdr/rnglists/loclists'),
+    Stream('c01.index', 300, 20000, 'oracle', timeout=600,
+           exhaustive='versions 2/5 x slot counts 1,2,3,4,8,16 x every fill level 0..slot_count (incl. no empty slot) x unit counts'),
+    Stream('c01.expr', 3000, 300000, 'oracle', timeout=600,
+           exhaustive='typed constants of width 1/2/4/8 x 5 boundary payloads squared x 17 binary + 3 unary ops; generic 64-bit boundary operands x ops x address sizes'),
     Stream('c01.deep', 1, 1000, 'oracle', shards=8, timeout=900,
            exhaustive='fixed family of large inputs (1k/20k/120k): zero aranges tuples, nested DIE chains, long CFI programs'),
 ], level='proof', design_ref='§5 C01',
